@@ -116,6 +116,13 @@ class ThermochemIncomplete(ThermochemBase):
         if T is None:
             self.ND_Cp_data = {}
         else:
+            # Check that the remaining data form a valid correlation before
+            # the point is withdrawn, so that a refused withdrawal leaves this
+            # object unchanged (and usable).
+            ND_Cp_data = self.ND_Cp_data.copy()
+            del ND_Cp_data[T]
+            type(self)(self.ND_H_ref, self.ND_S_ref, ND_Cp_data, self.T_ref,
+                       self.get_range())
             del self.ND_Cp_data[T]
         self._setup_correlation()
 
